@@ -39,6 +39,8 @@ def _self_name(fn):
 
 def check(ctx):
     repo = ctx.repo
+    from . import generic as _gen
+    _gen.language_traps(ctx, _gen.anchor_functions(repo, "C01"), "the property holds for every input, on every call")
     I = interp(repo)
     for r, t in (("MPT-1", "constructor: every normal exit passes the uniformity check"),
                  ("STO-1", "constructor stores only DataFrameColumn(value, nrow=nrow); skip only for conforming columns"),
